@@ -107,8 +107,12 @@ def run_case(case):
             ms = [m for m in model if m['vol'] == vol]
             dl = '%d%s' % (drive, vol or '')
             base = ['--file', fname, '--drive', dl, '--dir', cur.decode('latin-1')]
+            # option order: --ui is given before the other options for cat (first pass) and AFTER --drive/--dir for info,
+            # extract-files and a second cat pass: a presentation option must not reset the selection made before it
+            late_ui = next((u for u in uis if u), None)
+            late = ['--ui', late_ui] if late_ui else []
             if 'info' in case['checks']:
-                r = dfsrun.dfs(BIN, base + ['info', '#.*'], d)
+                r = dfsrun.dfs(BIN, base + late + ['info', '#.*'], d)
                 res['n'] += 1
                 if r.status() != 'exit0':
                     if case.get('reject_ok') and r.exit == 1 and r.err:
@@ -136,8 +140,8 @@ def run_case(case):
                     except render.ParseError as e:
                         bad(res, sig + ':info:parse', str(e))
             if 'cat' in case['checks']:
-                for ui in uis:
-                    argv = (['--ui', ui] if ui else []) + base + ['cat']
+                for ui, where in [(u, 'early') for u in uis] + [(u, 'late') for u in uis if u]:
+                    argv = ((['--ui', ui] if ui else []) + base + ['cat']) if where == 'early' else (base + ['--ui', ui, 'cat'])
                     r = dfsrun.dfs(BIN, argv, d)
                     res['n'] += 1
                     if r.status() != 'exit0':
@@ -146,13 +150,13 @@ def run_case(case):
                         else:
                             bad(res, sig + ':cat:fail:' + r.status(), 'cat failed: %r' % r.err[:200])
                         continue
-                    check_cat(r.out, vspecs[vol], ms, cur, dens, dl.encode(), res, sig, 'ui=%s vol=%s' % (ui, vol))
+                    check_cat(r.out, vspecs[vol], ms, cur, dens, dl.encode(), res, sig, 'ui=%s (%s) vol=%s' % (ui, where, vol))
             if 'inf' in case['checks']:
                 dest = os.path.join(d, 'out')
                 os.makedirs(dest, exist_ok=True)
                 for f in os.listdir(dest):
                     os.unlink(os.path.join(dest, f))
-                r = dfsrun.dfs(BIN, base + ['extract-files', 'out'], d)
+                r = dfsrun.dfs(BIN, base + late + ['extract-files', 'out'], d)
                 res['n'] += 1
                 if r.status() != 'exit0':
                     bad(res, sig + ':inf:fail:' + r.status(), 'extract-files failed: %r' % r.err[:200])
